@@ -349,13 +349,17 @@ func init() {
 			{Name: "C01_dag", Pkg: "zzh", Func: "H_C01_dag", Reach: []string{"done"},
 				What: "solver-enumerated straight-line programs over {Scale,Add,Sub,Mul}: every operand choice (fan-out, reconvergence, x op x), every root (last node only for the longest programs), tracked/untracked leaves; all tensors' gradients vs a reverse-mode tape; each rule closure invoked a bounded number of times",
 				Items: tiered(func() []Item { return items(lk5(1, 1), lk5(1, 2), lk5(2, 2), lkr(1, 3, 0)) },
-					func() []Item { return items(lk5(1, 1), lk5(1, 2), lk5(2, 2), lk(1, 3), lkr(1, 3, 2), lkr(2, 3, 0), lkr(1, 4, 1)) })},
+					func() []Item {
+						return items(lk5(1, 1), lk5(1, 2), lk5(2, 2), lk(1, 3), lkr(1, 3, 2), lkr(2, 3, 0), lkr(1, 4, 1))
+					})},
 			{Name: "C01_accum", Pkg: "zzh", Func: "H_C01_accum", Reach: []string{"done"},
 				What:  "two graphs sharing only leaves, two back-propagations: leaf gradients add up",
 				Items: tiered(func() []Item { return items(lk(1, 1), lk(2, 1), lk(1, 2)) }, func() []Item { return items(lk(1, 1), lk(2, 1), lk(1, 2), lk(2, 2)) })},
 			{Name: "C01_seq", Pkg: "zzh", Func: "H_C01_seq", Reach: []string{"done"},
-				What:  "graph A built and back-propagated, then graph B built over the same untracked leaf and a fresh tracked leaf and back-propagated: both get the total derivative, the untracked leaf is never spent",
-				Items: tiered(func() []Item { return items(map[string]int64{"steps": 1, "ops": 2}, map[string]int64{"steps": 2, "ops": 2}) }, func() []Item {
+				What: "graph A built and back-propagated, then graph B built over the same untracked leaf and a fresh tracked leaf and back-propagated: both get the total derivative, the untracked leaf is never spent",
+				Items: tiered(func() []Item {
+					return items(map[string]int64{"steps": 1, "ops": 2}, map[string]int64{"steps": 2, "ops": 2})
+				}, func() []Item {
 					return items(map[string]int64{"steps": 1, "ops": 2}, map[string]int64{"steps": 2, "ops": 2}, map[string]int64{"steps": 3, "ops": 1})
 				})},
 			{Name: "C01_ladder", Pkg: "zzh", Func: "H_C01_ladder", Reach: []string{"done"},
